@@ -203,10 +203,10 @@ class MQPart:
         rate = cf.q(case["rate"])
         cl = case["classes"]
         if case["sched"] == "sp":
-            return f"(sp_cfg true {rate} {cf.lst([cf.pair(cf.z(f), cf.z(p)) for f, p in cl])})"
+            return f"(SP.sp_cfg true {rate} {cf.lst([cf.pair(cf.z(f), cf.z(p)) for f, p in cl])})"
         if case["sched"] == "rr":
-            return f"(rr_cfg {rate} {cf.lst([cf.z(f) for f, _ in cl])})"
-        return f"(wrr_cfg {rate} {cf.lst([cf.pair(cf.z(f), cf.z(p)) for f, p in cl])})"
+            return f"(RR.rr_cfg {rate} {cf.lst([cf.z(f) for f, _ in cl])})"
+        return f"(WRR.wrr_cfg {rate} {cf.lst([cf.pair(cf.z(f), cf.z(p)) for f, p in cl])})"
 
     def _actions(self, case, obs):
         specs = case["workload"]["packets"]
@@ -217,43 +217,43 @@ class MQPart:
             sample = e[-1]
             outs = []
             if kind == "adv":
-                a = f"SAdvance {cf.q(e[1])}"
+                a = f"SchedBase.SAdvance {cf.q(e[1])}"
             elif kind == "put":
-                a = f"SPut {ec.pkt_coq(specs[str(e[1])], e[1])}"
+                a = f"SchedBase.SPut {ec.pkt_coq(specs[str(e[1])], e[1])}"
                 outs = e[2]
             elif kind == "step":
                 (tn, tgt), outs = e[1], e[2]
                 if (tn, tgt) == ("Initialize", "run"):
-                    a = "SInit"
+                    a = "SchedBase.SInit"
                 elif tn == "StorePut" and tgt == "tok":
-                    a = "SStoreCb None"
+                    a = "SchedBase.SStoreCb None"
                 elif tn == "StorePut" and tgt.startswith("f:"):
-                    a = f"SStoreCb (Some {cf.z(int(tgt[2:]))})"
+                    a = f"SchedBase.SStoreCb (Some {cf.z(int(tgt[2:]))})"
                 elif tn == "StoreGet" and tgt == "tok":
-                    a = "SGetDone None"
+                    a = "SchedBase.SGetDone None"
                 elif tn == "StoreGet" and tgt.startswith("f:"):
-                    a = f"SGetDone (Some {cf.z(int(tgt[2:]))})"
+                    a = f"SchedBase.SGetDone (Some {cf.z(int(tgt[2:]))})"
                 elif (tn, tgt) == ("Initialize", "send_packet"):
-                    a = "SChildInit"
+                    a = "SchedBase.SChildInit"
                 elif (tn, tgt) == ("Timeout", "send_packet"):
-                    a = "SChildTimer"
+                    a = "SchedBase.SChildTimer"
                 elif (tn, tgt) == ("Process", "end:send_packet>run"):
-                    a = "SChildEnd"
+                    a = "SchedBase.SChildEnd"
                 elif (tn, tgt) == ("Initialize", "monitor_run"):
                     continue                      # the Monitor reaches its first timeout: no action of the scheduler
                 elif (tn, tgt) == ("Timeout", "monitor_run"):
-                    a = f"SSample {cf.b(incl)}"
+                    a = f"SchedBase.SSample {cf.b(incl)}"
                 else:
                     return None, f"unexpected kernel step {e[1]}"
             else:
                 return None, f"unexpected log entry {e[:2]}"
-            fw = cf.lst([f"OForward {ec.pkt_coq(specs[str(x[2])], x[2])}" for x in outs])
+            fw = cf.lst([f"SchedBase.OForward {ec.pkt_coq(specs[str(x[2])], x[2])}" for x in outs])
             q, cur, rec, tok, tot, m = sample
             if any(x[1] is None or x[2] is None for x in m):
                 return None, "monitor sample lists of unequal length"
             qs = cf.lst([f"({cf.z(f)}, {cf.z(c)}, {cf.z(b)}, {cf.nat(n)})" for f, c, b, n in q])
             ms = cf.lst([f"({cf.z(f)}, {cf.z(c)}, {cf.z(b)})" for f, c, b in m])
-            acts.append(f"({a}, {fw}, mkobs {qs} {cf.opt(cur, cf.nat)} {cf.z(rec)} {cf.nat(tok)} {cf.z(tot)} {ms})")
+            acts.append(f"({a}, {fw}, SchedBase.mkobs {qs} {cf.opt(cur, cf.nat)} {cf.z(rec)} {cf.nat(tok)} {cf.z(tot)} {ms})")
         return acts, None
 
     def agree_term(self, case, obs):
@@ -263,7 +263,7 @@ class MQPart:
         if acts is None:
             return f"false (* {err} *)"
         cfg = self._cfg_term(case)
-        return f"mq_agree {cfg} (mq0 {cfg}) {cf.lst(acts, sep=';\n    ')}"
+        return f"SchedBase.mq_agree {cfg} (SchedBase.mq0 {cfg}) {cf.lst(acts, sep=';\n    ')}"
 
     def model_term(self, case):
         return None
